@@ -2,7 +2,7 @@
 from .rt import ite, land, lor, lnot, bits, bit, M32
 from . import state as ST
 from . import psr as PSR
-from .cpu import Cpu
+from .cpu import Cpu, _ite_any
 
 SKIP = {'cpu.opcode', 'cpu.opcode_len'} | {'chg[%d]' % i for i in range(16)}
 
@@ -28,12 +28,12 @@ def spec_step(row, st0, instr, iset, oplen, mem=None, fix=None):
         passed, cu = PSR.condition_passed(iset, instr, oplen, st0['cpsr'])
     exe = base.copy()
     row.op(exe, f)
-    unpred = lor(unpred, cu, land(passed, exe.unpred))
+    unpred = lor(unpred, cu, land(passed, exe.unpred), land(passed, exe.unknown))
     undef = lor(undef, land(passed, exe.undef))
     final = {}
     for k, v0 in st0.items():
         v1 = exe.st.get(k, v0)
-        final[k] = v1 if v1 is v0 else ite(passed, v1, v0)
+        final[k] = v1 if v1 is v0 else _ite_any(passed, v1, v0)
     branched = land(passed, exe.branched)
     final['R.PC'] = ite(branched, exe.st['R.PC'], (st0['R.PC'] + oplen // 8) & M32)
     it0 = ST.cpsr_field(st0['cpsr'], 'it')
